@@ -23,6 +23,7 @@ CONSTANTS
   RejoinPausedNoAvail = TRUE
   ResetSeparate = TRUE
   JumpToFirstAvailable = TRUE
+  ReportOnlyIfBitSet = TRUE
 SPECIFICATION Spec
 VIEW View
 INVARIANTS C03_NoLostWake C04_BitsTrueWhenCalm
